@@ -12,7 +12,7 @@ import random
 from lib import btc, chains, datadir, ref, run, scriptrep
 
 PAYLOADS = [b'hello', b'x', 'Grüße € \U0001F600'.encode(), b'\xff\xfe\xfd', b'ok\xc3', b'\xc3\x28', b'', b'a' * 75, b'b' * 76, b'c' * 80,
-            b'd' * 255, b'e' * 256, b'f' * 3000, b'g' * 9996, b'h' * 9997, b'i' * 20000, b'j' * 70000, ('\u00e9' * 5100).encode(), 'a\ufffdb'.encode(), '\ufffd'.encode() * 5, ('\ufffd' * 101).encode(),
+            b'd' * 255, b'e' * 256, b'f' * 3000, b'\xaa\x21\xa9\xed' + b'Z' * 32, b'\xaa\x21\xa9\xed' + bytes(range(200, 232)), b'g' * 9996, b'h' * 9997, b'i' * 20000, b'j' * 70000, ('\u00e9' * 5100).encode(), 'a\ufffdb'.encode(), '\ufffd'.encode() * 5, ('\ufffd' * 101).encode(),
             ('x' * 79 + '\u00e9' * 20).encode(), ('\u00e9' * 60).encode(), ('y' + '\u00e9' * 60).encode(), ('\u20ac' * 40).encode(), ('zz' + '\u20ac' * 40).encode(),
             ('\U0001F600' * 30).encode(), ('q' + '\U0001F600' * 30).encode(), 'snow☃'.encode() * 30, b'with;semicolon and "quotes"', b'tab\there', b'\x00nul']
 
@@ -105,7 +105,8 @@ def main(ck, tier, w):
                                                                'observed': r.brief(), 'tags': []})
     # payloads with control characters (valid UTF-8), and what standard output is connected to - pipe, regular file, terminal -
     # changes nothing: "exactly the pushed payload"
-    ctl = [b'tab\there', b'esc \x1b[31mred\x1b[0m', b'bell\x07', b'nul\x00byte', b'del\x7f', 'nel\u0085x'.encode(), b'cr\rlf', b'\x08\x08bs', b'\x0b\x0c']
+    ctl = [b'tab\there', b'esc \x1b[31mred\x1b[0m', b'bell\x07', b'nul\x00byte', b'del\x7f', 'nel\u0085x'.encode(), b'cr\rlf', b'\x08\x08bs', b'\x0b\x0c',
+           b'\xaa\x21\xa9\xed' + bytes(range(32)), b'\xaa\x21\xa9\xed' + b'A' * 32, b'omni\x00\x00\x00\x00', b'CNTRPRTY', b'\x5d']      # (well-known carriers; these sit in coinbase transactions here)
     for coin in ('bitcoin', 'dogecoin', 'testnet3'):
         blocks = chains.std_chain(3, coin, txs_fn=lambda h, c: [btc.coinbase(h, None, outs=[{'val': 1, 'spk': b'\x6a' + btc.push(p)} for p in ctl[h::3]])])
         d = datadir.simple_dir(w.sub('dd'), blocks, coin).write()
